@@ -93,6 +93,8 @@ class Trace:
     def digest(self) -> str:
         h = hashlib.sha256()
         for ev in self.events:
+            if ev and ev[0] == 'violation':
+                ev = ev[:-1]        # the free-text detail (exception messages: process ids, temp names) is not part of it
             h.update(canon(ev).encode())
             h.update(b'\n')
         return h.hexdigest()
